@@ -51,6 +51,18 @@ def stf_prop(targets, mask, assumptions, rule_extra=""):
             "rule": STF_RULE + rule_extra, "assumptions": assumptions}
 
 PROPS.update({
+    "C01": stf_prop(["STF/Proofs/Supply.vo", "STF/Proofs/Pool.vo"], ST_COINS | ST_POOLS | ST_FEES | ST_CODE,
+                    ["partial proof: the whole-state inequality supply' <= supply + issuance is evaluated on every accepted batch and every seal of the stream (Coq function on the real states); proved for all inputs: per-transaction balance, inputs exist once, supply algebra of the coin map, settlement bounds",
+                     "pool sides are attributed to denominations through the key bytes"]),
+    "C03": stf_prop(["STF/Proofs/Perm.vo"], ST_COINS | ST_CODE | ST_FEES,
+                    ["partial proof: equality of coin map / fees for two accepted presentations; acceptance under permutation, rayon pool sizes and one-at-a-time application are checked on the real code for every batch of the stream",
+                     "distinct transactions have distinct hashes; markers are not output ids (hash-oracle assumptions)"]),
+    "C04": stf_prop(["STF/Proofs/Covenant.vo", "STF/Proofs/StdCovenant.vo"], ST_CODE | ST_COINS,
+                    ["Hash / Ed25519 inside covenants are oracles answered from the implementation's own evaluation",
+                     "known finding F15: inputs sharing a covenant hash with an earlier input of the same transaction are not re-evaluated"]),
+    "C09": {"coq_targets": ["STF/Proofs/Total.vo"], "case_libs": ["Cases/Reflect.vo"], "streams": [("stf", ST_CODE), ("vm", VM_RESULT | VM_FUEL)],
+            "rule": STF_RULE + "; vm stream: every generated program runs under catch_unwind with a step cap; C09: any panic or step-cap hit on the real code is a violation",
+            "assumptions": ["partial proof: per-site unreachability theorems; whole-history totality is checked on the real code (debug build, overflow checks on)", "allocation failure, stack depth and dependency internals are outside the model"]},
     "C02": stf_prop(["STF/Proofs/Coins.vo"], ST_COINS | ST_CODE | ST_TXS,
                     ["distinct transactions have distinct hashes and dedup markers are not output coin ids (hash-oracle assumptions of the set equation)",
                      "rejection leaves the state unchanged: checked on the real code after every rejected batch (coin root, transaction set)"]),
@@ -83,6 +95,14 @@ def _stf_text(text, note, technique):
     return {"text": text, "note": note + " Model tied to the code by replaying every recorded step of the stf stream on the Gallina model (full-state comparison) and by evaluating the property's boolean reflection on the implementation's own before/after states.", "technique": technique}
 
 MANIFEST_TEXT = {
+    "C01": _stf_text("Partial proof. Proved in Coq for all inputs: every accepted non-faucet transaction is balanced per denomination (outputs + fee = inputs, or the denomination is only burnt), inputs exist and are consumed once, the coin supply moves by exactly the value of each inserted/removed coin, swaps pay within the constant-product bound less 0.5%, pro-rata shares never exceed the total. The whole-state inequality supply' <= supply + explicit issuance is a Coq function evaluated on the real before/after state of every accepted batch and every seal.",
+                     "Partial: the composition of these facts into the whole-state inequality is checked per observation, not proved.", "Coq proof (per-transaction balance, map-fold algebra, nia) + supply reflection on every real step"),
+    "C03": _stf_text("Partial proof. Proved in Coq: two accepted presentations of the same transactions yield the same coin map, fee pool and tips (folds of consistent inserts / deletes / saturating sums are permutation-invariant) and leave every other field untouched. Checked on the real code for every batch of the stream: all permutations (<= 4 members), rotations, rayon pools of 1 and 3 threads, one-at-a-time application in dependency order.",
+                     "Partial: order-independence of acceptance and real thread schedules are explored, not proved.", "Coq proof (Permutation over gmap folds) + exhaustive small-permutation and thread-pool exploration"),
+    "C04": _stf_text("Coq theorems: in an accepted batch every input is approved by a covenant of the coin's hash run on that input's own environment, except inputs sharing their covenant hash with an earlier input of the same transaction (known finding F15, stated in the theorem); missing / undecodable / failing covenants reject; the two standard signature covenants accept iff the expected slot of tx.sigs holds a <= 64 byte signature that verifies under the named key over the signature-free hash (symbolic execution of the 8-instruction programs for every transaction and environment).",
+                     "Hash and Ed25519 are oracles.", "Coq proof (induction over inputs, symbolic execution) + differential replay + independent re-evaluation of every covenant"),
+    "C09": _stf_text("Partial proof. Proved in Coq: covenant execution always terminates; totals that passed the up-front check cannot overflow; mint speed arithmetic cannot overflow for difficulty 1..64; swaps are only settled against pools with two non-empty sides and then cannot panic; guarded withdrawals cannot panic; shares of an empty total are 0; consistent counts never underflow. Checked on the real code: every call of every stream runs under catch_unwind in a debug build; any panic is a violation, and the model's explicit Panic outcomes are compared with the real ones.",
+                     "Partial: whole-history totality, allocation, stack depth and dependency internals are not proved.", "Coq proof (per-panic-site unreachability) + catch_unwind exploration with adversarial inputs"),
     "C02": _stf_text("Coq theorems: the coin map after an accepted batch is every insertion of the batch followed by the removal of every input; under the hash assumptions this is the set equation (inputs gone, each non-destroyed output present with exactly the declared value/covenant/data/height/denomination, markers present, every other coin untouched); acceptance implies well-formedness, no coin consumed twice, every input unspent before or created in the batch - for all states and batches.",
                      "Hash-oracle assumptions stated as hypotheses.", "Coq proof (gmap fold lemmas, list induction) + differential replay + reflection against an independent map-based spec"),
     "C15": _stf_text("Coq theorems: at seal every coin that is not output 0/1 of a pool request is unchanged; a pool request has kind swap/deposit/withdraw and canonical pool data (different real denominations, canonical order and encoding); swap_many pays floor(in*other'*995/(own'*1000)) on each side, keeps reserves positive, never decreases the product; pro-rata shares never exceed the total; deposit/withdraw move reserves by exactly the amounts credited/paid.",
